@@ -213,6 +213,7 @@ TYPE_SEQS = [
     (['vector', '<', 'Feature', '>'], 'vec_Feature'),
     (['queue', '<', 'SourceCont', '>'], 'queue_SourceCont'),
     (['shared_ptr', '<', 'IFeature', '>'], 'FeatureP'),
+    (['shared_ptr', '<', 'IMultiTag', '>'], 'MultiTagP'),
     (['shared_ptr', '<', 'FeatureHDF5', '>'], 'FeatureP'),
     (['shared_ptr', '<', 'IDataArray', '>'], 'DataArrayP'),
     (['list', '<', 'tuple', '<', 'Section', ',', 'size_t', '>>'], 'list_SectionCont'),
